@@ -294,6 +294,22 @@ def c10_family(tag, quick):
                     "steps": base(conn) + [{"a": "rule", "rule": {"on": kind, "do": "drop"}}, {"a": "cut"},
                                            {"a": "await", "ev": "BRecvReq", "match": {"kind": kind}, "ms": 3000, "must": True},
                                            {"a": "closeConn", "g": "C", "ctxMs": 3000, "wait": True}] + after_conn_calls() + tail})
+    # E2: an Open whose response arrives while Close is already under way (Close is held in the write of its Disconnect): whatever Open
+    #     returns, a stream it hands out must end with the connection (writes / reads fail, nothing left running)
+    for what, kind in (("openUp", "UpstreamOpenRequest"), ("openDown", "DownstreamOpenRequest")):
+        call = {"a": "openUp", "g": "P1", "obj": "U8", "qos": "reliable", "ctxMs": 4000} if what == "openUp" else \
+               {"a": "openDown", "g": "P1", "obj": "D8", "qos": "reliable", "srcs": ["n1"], "ctxMs": 4000}
+        use = [{"a": "write", "g": "A2", "obj": "U8", "id": "A", "pts": [[60, 4]], "ctxMs": 2000, "wait": True},
+               {"a": "flush", "g": "A2", "obj": "U8", "ctxMs": 2000, "wait": True}] if what == "openUp" else \
+              [{"a": "read", "g": "A2", "obj": "D8", "ctxMs": 700, "wait": True}]
+        scs.append({"id": "%s/openAcrossClose/%s" % (tag, what), "kind": "iscp", "conn": {},
+                    "steps": base() + [{"a": "rule", "rule": {"on": kind, "nth": 1, "do": "hold", "arg": 1}}, call,
+                                       {"a": "await", "ev": "Fault", "match": {"do": "hold", "on": kind}, "ms": 2000, "must": True},
+                                       {"a": "rule", "rule": {"on": "Disconnect", "do": "holdWrite", "gate": "dw"}},
+                                       {"a": "closeConn", "g": "C", "ctxMs": 2500},
+                                       {"a": "await", "ev": "Fault", "match": {"do": "holdWrite", "on": "Disconnect"}, "ms": 2000, "must": True},
+                                       {"a": "release", "gate": "hold1"}, {"a": "sleep", "ms": 40}, {"a": "release", "gate": "dw"},
+                                       {"a": "join", "obj": "C"}, {"a": "join", "obj": "P1"}, {"a": "sleep", "ms": 50}] + use + after_conn_calls() + tail})
     # F: concurrent Close of stream and connection; Close of an idle connection; double Close of a stream
     scs.append({"id": tag + "/concurrentClose", "kind": "iscp", "conn": {},
                 "steps": base() + [{"a": "closeUp", "g": "C1", "obj": "U1", "ctxMs": 2000}, {"a": "closeConn", "g": "C2", "ctxMs": 2000},
